@@ -6,7 +6,7 @@ set -u
 PATCH=$(realpath "$1"); shift
 W=${MUT_WORK:-/tmp/iwe-mut/work}
 rm -rf "$W"; mkdir -p "$W"
-rsync -a --exclude target --exclude .git /repo/ "$W"/
+rsync -a --exclude target --exclude .git "${MUT_BASE:-/repo}"/ "$W"/
 ( cd "$W" && git init -q . 2>/dev/null && git apply --whitespace=nowarn "$PATCH" ) || { echo "PATCH-DOES-NOT-APPLY $PATCH"; rm -rf "$W"; exit 3; }
 rm -rf "$W/.git"
 rc=0
